@@ -39,6 +39,9 @@ def solve_obligation(ob, timeout_ms=10000, seed=0):
     # the solver seed is fixed (verdicts must not depend on VERIF_SEED); an `unknown` is retried with other seeds and a
     # doubled budget before the obligation is given up as undecided - nonlinear real goals are sensitive to the seed
     attempts = [(0, timeout_ms)] if "canary" in (ob.kind or "") else [(0, timeout_ms), (7, timeout_ms), (3, timeout_ms), (11, timeout_ms * 2), (5, timeout_ms * 2)]
+    import os as _os
+    if _os.environ.get("PYVC_FAST"):
+        attempts = attempts[:1]          # development aid: one attempt only
     r = z3.unknown
     for (sd, tmo) in attempts:
         s = z3.Solver()
